@@ -1,9 +1,304 @@
-(* Proofs about the Durq / Dusq model. *)
+(* Proofs about the Durq / Dusq model: refinement of the FIFO / ordered-set
+   reference, durable copy = memory, frame on other queues. *)
 From Hio Require Import Base.Prelude Base.ListFacts Model.Lmdb Model.IoSub Model.Durq.
 
-Lemma push_fifo pyeq q s st v :
-  mem (snd (fst (qstep pyeq false q s st (Push v)))) = mem st ++ [v] /\
-  fst (fst (qstep pyeq false q s st (Push v))) q = s q ++ [v].
+Lemma upd_same {A} (s : N -> A) q a : upd N.eqb s q a q = a.
+Proof. unfold upd. now rewrite N.eqb_refl. Qed.
+Lemma upd_other {A} (s : N -> A) q a q' : q' <> q -> upd N.eqb s q a q' = s q'.
+Proof. unfold upd. intros H. destruct (N.eqb q' q) eqn:E; [apply N.eqb_eq in E; contradiction|reflexivity]. Qed.
+
+Lemma nonempty_app_false {A} (l : list A) x : nonempty (l ++ [x]) = true.
+Proof. destruct l; reflexivity. Qed.
+
+(* ---- lists as ordered sets (byte equality) ---- *)
+Lemma beq_sym a b : bytes_eqb a b = bytes_eqb b a.
 Proof.
-  unfold qstep, st_step, spec_io; simpl. unfold upd. now rewrite N.eqb_refl.
+  destruct (bytes_eqb a b) eqn:E1, (bytes_eqb b a) eqn:E2; auto.
+  - apply bytes_eqb_eq in E1. subst. rewrite (proj2 (bytes_eqb_eq b b) eq_refl) in E2. discriminate.
+  - apply bytes_eqb_eq in E2. subst. rewrite (proj2 (bytes_eqb_eq a a) eq_refl) in E1. discriminate.
+Qed.
+
+Lemma mem_in v (m : list bytes) : existsb (bytes_eqb v) m = true <-> In v m.
+Proof.
+  rewrite existsb_exists. split.
+  - intros [x [Hx E]]. apply bytes_eqb_eq in E. now subst.
+  - intros Hx. exists v. split; auto. now apply bytes_eqb_eq.
+Qed.
+Lemma mem_notin v (m : list bytes) : existsb (bytes_eqb v) m = false <-> ~ In v m.
+Proof.
+  rewrite <- mem_in. destruct (existsb (bytes_eqb v) m); split; intros; congruence.
+Qed.
+
+Lemma dedupe_acc_notseen seen vs x : In x (dedupe_acc seen vs) -> ~ In x seen.
+Proof.
+  revert seen. induction vs as [|v vs IH]; intros seen; simpl; [tauto|].
+  destruct (existsb (bytes_eqb v) seen) eqn:E.
+  - apply IH.
+  - intros [->|Hx].
+    + now apply mem_notin.
+    + intros Hs. apply (IH (v :: seen) Hx). now right.
+Qed.
+
+Lemma dedupe_acc_in seen vs x : In x (dedupe_acc seen vs) -> In x vs.
+Proof.
+  revert seen. induction vs as [|v vs IH]; intros seen; simpl; [tauto|].
+  destruct (existsb (bytes_eqb v) seen); [intros H; right; eauto|].
+  intros [->|H]; [now left|right; eauto].
+Qed.
+
+Lemma dedupe_acc_nodup seen vs : NoDup (dedupe_acc seen vs).
+Proof.
+  revert seen. induction vs as [|v vs IH]; intros seen; simpl; [constructor|].
+  destruct (existsb (bytes_eqb v) seen); [apply IH|].
+  constructor; [|apply IH]. intros Hin. apply dedupe_acc_notseen in Hin. apply Hin. now left.
+Qed.
+
+Lemma dedupe_acc_id seen l : NoDup l -> (forall x, In x l -> ~ In x seen) -> dedupe_acc seen l = l.
+Proof.
+  revert seen. induction l as [|v l IH]; intros seen ND Hs; simpl; [reflexivity|].
+  inversion ND as [|? ? Hv ND']; subst.
+  assert (E : existsb (bytes_eqb v) seen = false) by (apply mem_notin; apply Hs; now left).
+  rewrite E. f_equal. apply IH; auto.
+  intros x Hx [->|Hin]; [contradiction|]. apply (Hs x); [now right|assumption].
+Qed.
+
+Lemma dedupe_id l : NoDup l -> dedupe l = l.
+Proof. intros. apply dedupe_acc_id; auto. Qed.
+Lemma dedupe_nodup l : NoDup (dedupe l).
+Proof. apply dedupe_acc_nodup. Qed.
+
+Lemma minus_in vs m x : In x (minus vs m) <-> In x vs /\ ~ In x m.
+Proof.
+  unfold minus. rewrite filter_In. rewrite negb_true_iff, mem_notin. tauto.
+Qed.
+Lemma minus_nodup vs m : NoDup vs -> NoDup (minus vs m).
+Proof. intros. unfold minus. now apply NoDup_filter. Qed.
+
+Lemma nodup_app (l1 l2 : list bytes) :
+  NoDup l1 -> NoDup l2 -> (forall x, In x l1 -> ~ In x l2) -> NoDup (l1 ++ l2).
+Proof.
+  induction l1 as [|b l1 IH]; intros H1 H2 D; simpl; auto.
+  inversion H1; subst. constructor.
+  - rewrite in_app_iff. intros [?|?]; [contradiction|]. apply (D b); [now left|assumption].
+  - apply IH; auto. intros x Hx. apply D. now right.
+Qed.
+
+Lemma nodup_app_minus m vs : NoDup m -> NoDup vs -> NoDup (m ++ minus vs m).
+Proof.
+  intros Hm Hv. apply nodup_app; auto. now apply minus_nodup.
+  intros x Hx. rewrite minus_in. tauto.
+Qed.
+
+Lemma remove1_nodup v (l : list bytes) : NoDup l -> NoDup (remove1 v l).
+Proof.
+  induction l as [|x l IH]; simpl; intros ND; [constructor|].
+  inversion ND; subst. destruct (bytes_eqb v x); auto.
+  constructor; auto. intros Hin. apply H1.
+  clear -Hin. induction l as [|y l IH]; simpl in *; [tauto|].
+  destruct (bytes_eqb v y); [now right|]. destruct Hin as [->|H]; [now left|right; auto].
+Qed.
+
+Section P.
+  Variable pyeq : val -> val -> bool.
+
+  Definition step_ok (set : bool) (q : N) (s : store) (st : queue) (o : qop) : Prop :=
+    let '(s', st', r) := qstep pyeq set q s st o in
+    s' q = mem st' /\ (forall q', q' <> q -> s' q' = s q') /\
+    mem st' = fst (ref_step pyeq set (mem st) o) /\
+    (res_specified o = true -> r = snd (ref_step pyeq set (mem st) o)).
+
+  Ltac fin I :=
+    cbn; rewrite ?upd_same, ?I; cbn; rewrite ?app_nil_r;
+    repeat split; auto; try discriminate; try (intros; now apply upd_other).
+
+  Lemma durq_step q s st o : s q = mem st -> step_ok false q s st o.
+  Proof.
+    intros I. unfold step_ok. destruct o; cbn [qstep ref_step st_step spec_io res_specified andb].
+    - fin I.
+    - fin I.
+    - destruct vs as [|v vs]; fin I.
+    - rewrite I. destruct (mem st) as [|v m] eqn:M; [destruct emptive|]; fin I.
+    - rewrite I. destruct (mem st) as [|v m] eqn:M; fin I.
+    - fin I.
+    - fin I.
+    - unfold sync. destruct (stale st || force); [rewrite I; destruct (mem st) as [|v m] eqn:M|]; fin I.
+    - unfold sync, fresh; cbn. rewrite I. destruct (mem st) as [|v m] eqn:M; fin I.
+  Qed.
+
+  (* ---- whole histories over several queues ---- *)
+  Lemma ref_run_ext set ops : forall ls1 ls2, (forall q, ls1 q = ls2 q) ->
+    ref_run pyeq set ls1 ops = ref_run pyeq set ls2 ops.
+  Proof.
+    induction ops as [|[q o] ops IH]; intros ls1 ls2 E; simpl; [reflexivity|].
+    rewrite (E q). destruct (ref_step pyeq set (ls2 q) o) as [l' r]. f_equal.
+    apply IH. intros q'. destruct (N.eqb q' q); auto.
+  Qed.
+
+  Lemma run_generic set (P : queue -> Prop) (W : qop -> Prop) :
+    (forall q s st o, s q = mem st -> P st -> W o ->
+       step_ok set q s st o /\ P (snd (fst (qstep pyeq set q s st o)))) ->
+    forall ops s qs,
+      (forall q, s q = mem (qs q) /\ P (qs q)) ->
+      Forall (fun qo => W (snd qo)) ops ->
+      run_ok ops (qrun pyeq set s qs ops) (ref_run pyeq set (fun q => mem (qs q)) ops).
+  Proof.
+    intros Hstep. induction ops as [|[q o] ops IH]; intros s qs Inv Wf; simpl; [exact I|].
+    inversion Wf as [|? ? Wo Wf']; subst. simpl in Wo.
+    destruct (Inv q) as [Iq Pq].
+    destruct (Hstep q s (qs q) o Iq Pq Wo) as [Hok HP]. unfold step_ok in Hok.
+    destruct (qstep pyeq set q s (qs q) o) as [[s' st'] r] eqn:Q. simpl in HP.
+    destruct Hok as [Hs [Hfr [Hm Hr]]].
+    destruct (ref_step pyeq set (mem (qs q)) o) as [l' r'] eqn:R. simpl in Hm, Hr.
+    simpl. repeat split; auto; try congruence.
+    rewrite (ref_run_ext set ops _ (fun q' => mem (qupd qs q st' q'))).
+    - apply IH; auto. intros q'. unfold qupd. destruct (N.eqb q' q) eqn:E.
+      + apply N.eqb_eq in E. subst. auto.
+      + assert (q' <> q) by (intros ->; rewrite N.eqb_refl in E; discriminate).
+        rewrite Hfr by assumption. apply Inv.
+    - intros q'. unfold qupd. destruct (N.eqb q' q); congruence.
+  Qed.
+
+  Lemma durq_run ops s qs :
+    (forall q, s q = mem (qs q)) ->
+    run_ok ops (qrun pyeq false s qs ops) (ref_run pyeq false (fun q => mem (qs q)) ops).
+  Proof.
+    intros Inv. apply (run_generic false (fun _ => True) (fun _ => True)).
+    - intros. split; [now apply durq_step|exact I].
+    - intros q. split; [apply Inv|exact I].
+    - apply Forall_forall. intros; exact I.
+  Qed.
+
+  (* ---- Dusq, when Python equality coincides with equality of serialisations ---- *)
+  Hypothesis pyeq_ser : forall a b, pyeq a b = true <-> a = b.
+
+  Lemma pyeq_beq a b : pyeq a b = bytes_eqb a b.
+  Proof.
+    destruct (pyeq a b) eqn:E1, (bytes_eqb a b) eqn:E2; auto.
+    - apply pyeq_ser in E1. apply bytes_eqb_eq in E1. congruence.
+    - apply bytes_eqb_eq in E2. apply pyeq_ser in E2. congruence.
+  Qed.
+  Lemma pymem v m : existsb (pyeq v) m = existsb (bytes_eqb v) m.
+  Proof. induction m as [|x m IH]; simpl; [reflexivity|]. now rewrite pyeq_beq, IH. Qed.
+
+  Lemma oset_update_spec seen m vs :
+    (forall x, In x seen -> In x m) ->
+    oset_update pyeq m vs = m ++ minus (dedupe_acc seen vs) m.
+  Proof.
+    unfold oset_update. revert seen m. induction vs as [|v vs IH]; intros seen m Hs; simpl.
+    - now rewrite app_nil_r.
+    - change (oset_add pyeq m v) with (if existsb (pyeq v) m then m else m ++ [v]).
+      rewrite pymem. destruct (existsb (bytes_eqb v) m) eqn:Em.
+      + destruct (existsb (bytes_eqb v) seen) eqn:Es.
+        * now apply IH.
+        * simpl. rewrite Em. simpl. apply IH. intros x [->|Hx]; [now apply mem_in|auto].
+      + assert (Es : existsb (bytes_eqb v) seen = false).
+        { apply mem_notin. intros Hin. apply Hs in Hin. apply mem_notin in Em. contradiction. }
+        rewrite Es. simpl. rewrite Em. simpl.
+        rewrite (IH (v :: seen) (m ++ [v])).
+        2:{ intros x [->|Hx]; rewrite in_app_iff; [right; now left|left; auto]. }
+        rewrite <- app_assoc. simpl. f_equal. f_equal.
+        unfold minus. apply filter_ext_in. intros x Hx. f_equal.
+        rewrite existsb_app. simpl. rewrite orb_false_r.
+        assert (bytes_eqb x v = false).
+        { destruct (bytes_eqb x v) eqn:E; auto. apply bytes_eqb_eq in E. subst x.
+          apply dedupe_acc_notseen in Hx. exfalso. apply Hx. now left. }
+        rewrite H. now rewrite orb_false_r.
+  Qed.
+
+  Lemma oset_update_minus m vs : oset_update pyeq m vs = m ++ minus (dedupe vs) m.
+  Proof. apply oset_update_spec. intros x []. Qed.
+
+  Lemma minus_nil l : minus l [] = l.
+  Proof. unfold minus. induction l as [|a l IH]; simpl in *; [reflexivity|]. now rewrite IH. Qed.
+  Lemma oset_load l : NoDup l -> oset_update pyeq [] l = l.
+  Proof. intros ND. rewrite oset_update_minus. simpl. now rewrite minus_nil, dedupe_id. Qed.
+  Lemma oset_pre pre : oset_update pyeq [] pre = dedupe pre.
+  Proof. rewrite oset_update_minus. simpl. apply minus_nil. Qed.
+
+  Lemma oset_remove_spec m v :
+    oset_remove pyeq m v = if existsb (bytes_eqb v) m then Some (remove1 v m) else None.
+  Proof.
+    induction m as [|x m IH]; simpl; [reflexivity|].
+    rewrite pyeq_beq. destruct (bytes_eqb v x); simpl; [reflexivity|].
+    rewrite IH. now destruct (existsb (bytes_eqb v) m).
+  Qed.
+
+  Lemma length_app_lt {A} (l n : list A) : Nat.ltb (length l) (length (l ++ n)) = nonempty n.
+  Proof.
+    rewrite app_length. destruct n; simpl.
+    - rewrite Nat.add_0_r. apply Nat.ltb_irrefl.
+    - apply Nat.ltb_lt. lia.
+  Qed.
+
+  Definition wf_op (o : qop) : Prop := match o with Remove v => v <> [] | _ => True end.
+
+  Lemma dusq_step q s st o :
+    s q = mem st -> NoDup (mem st) -> wf_op o ->
+    step_ok true q s st o /\ NoDup (mem (snd (fst (qstep pyeq true q s st o)))).
+  Proof.
+    intros I ND W. unfold step_ok.
+    destruct o; cbn [qstep ref_step st_step spec_io res_specified andb].
+    - (* Push *) unfold oset_add. rewrite pymem, I.
+      destruct (existsb (bytes_eqb v) (mem st)) eqn:E.
+      + rewrite Nat.ltb_irrefl. cbn. split; [fin I|auto].
+      + rewrite length_app_lt. cbn. split; [fin I|].
+        apply nodup_app; auto. { repeat constructor. intros []. }
+        intros x Hx [<-|[]]. apply mem_notin in E. contradiction.
+    - fin I.
+    - (* Extend / update *) rewrite oset_update_minus, length_app_lt, I.
+      destruct (minus (dedupe vs) (mem st)) eqn:E; cbn.
+      + rewrite app_nil_r. fin I.
+      + split; [fin I|]. rewrite <- E. apply nodup_app_minus; auto. apply dedupe_nodup.
+    - (* Pull *) rewrite I. destruct (mem st) as [|v m] eqn:M; [destruct emptive|]; cbn;
+        (split; [fin I|]); auto; try (now constructor); try (now inversion ND); try (rewrite M; constructor).
+    - (* Clear *) rewrite I. destruct (mem st) as [|v m] eqn:M; cbn; (split; [fin I|]); auto; try (now constructor); try (rewrite M; constructor).
+    - fin I.
+    - (* Remove *) rewrite oset_remove_spec, I.
+      destruct (existsb (bytes_eqb v) (mem st)) eqn:E; cbn.
+      + destruct v as [|b v]; [now elim W|]. cbn.
+        split; [fin I|]. now apply remove1_nodup.
+      + assert (R : remove1 v (mem st) = mem st); [|rewrite R; split; [fin I|auto]].
+        apply mem_notin in E. revert E. generalize (mem st) as l. clear. intros l E.
+        induction l as [|x l IH]; simpl in *; auto.
+        destruct (bytes_eqb v x) eqn:B; [apply bytes_eqb_eq in B; subst; exfalso; apply E; now left|].
+        f_equal. apply IH. tauto.
+    - (* Sync *) unfold sync. destruct (stale st || force); [rewrite I; destruct (mem st) as [|v m] eqn:M|]; cbn -[oset_update].
+      + split; [fin I|]. rewrite ?M. constructor.
+      + rewrite oset_load by assumption. split; [fin I|]; auto.
+      + split; [fin I|auto].
+    - (* Reopen *) unfold sync, fresh; cbn -[oset_update]. rewrite I. destruct (mem st) as [|v m] eqn:M; cbn -[oset_update].
+      + rewrite oset_pre. change (dedupe_acc [] (dedupe pre)) with (dedupe (dedupe pre)).
+        rewrite (dedupe_id (dedupe pre)) by apply dedupe_nodup.
+        split; [fin I|]. apply dedupe_nodup.
+      + rewrite oset_load by assumption. split; [fin I|auto].
+  Qed.
+
+  Lemma dusq_run ops s qs :
+    (forall q, s q = mem (qs q) /\ NoDup (mem (qs q))) ->
+    Forall (fun qo => wf_op (snd qo)) ops ->
+    run_ok ops (qrun pyeq true s qs ops) (ref_run pyeq true (fun q => mem (qs q)) ops).
+  Proof.
+    intros Inv Wf. apply (run_generic true (fun st => NoDup (mem st)) wf_op); auto.
+    intros. now apply dusq_step.
+  Qed.
+End P.
+
+(* reopening the store and resyncing a NEW queue object restores exactly the content *)
+Lemma reopen_restores pyeq set q s st :
+  s q = mem st -> (set = true -> NoDup (mem st) /\ forall a b, pyeq a b = true <-> a = b) ->
+  let '(s', st', r) := qstep pyeq set q s st (Reopen []) in
+  mem st' = mem st /\ s' q = mem st /\ r = Ok (RBool true).
+Proof.
+  intros I H. destruct set.
+  - destruct (H eq_refl) as [ND E].
+    destruct (dusq_step pyeq E q s st (Reopen []) I ND Logic.I) as [Hok _]. unfold step_ok in Hok.
+    destruct (qstep pyeq true q s st (Reopen [])) as [[s' st'] r].
+    destruct Hok as [Hs [_ [Hm Hr]]]. cbn in Hm, Hr.
+    assert (mem st' = mem st) by (rewrite Hm; destruct (mem st); reflexivity).
+    repeat split; try congruence. rewrite Hr by reflexivity. now destruct (mem st).
+  - pose proof (durq_step pyeq q s st (Reopen []) I) as Hok. unfold step_ok in Hok.
+    destruct (qstep pyeq false q s st (Reopen [])) as [[s' st'] r].
+    destruct Hok as [Hs [_ [Hm Hr]]]. cbn in Hm, Hr.
+    assert (mem st' = mem st) by (rewrite Hm; destruct (mem st); reflexivity).
+    repeat split; try congruence. rewrite Hr by reflexivity. now destruct (mem st).
 Qed.
